@@ -12,7 +12,7 @@ import (
 func init() {
 	register("C12", &propDef{
 		Title: "Failures are reported, never turned into silently partial results",
-		Rules: []func(*Checker){ruleC12Errors, ruleC12Illegal, ruleC12Whole, ruleC12Poison, ruleC12Closed, ruleC12Manifest, ruleC12Diags, ruleC12DiagCopy, ruleRootLink("C12.rootlink"), ruleTraceCalls("C12.calls"), ruleLockBalanced("C12.balanced"), ruleC12DiagSource, ruleFilesClosed("C12.closed")},
+		Rules: []func(*Checker){ruleC12Errors, ruleC12Illegal, ruleC12Whole, ruleC12Poison, ruleC12Closed, ruleC12Manifest, ruleC12Diags, ruleC12DiagCopy, ruleRootLink("C12.rootlink"), ruleTraceCalls("C12.calls"), ruleLockBalanced("C12.balanced"), ruleC12DiagSource, ruleFilesClosed("C12.closed"), ruleWritersClosed("C12.writers"), ruleWalkErrParam("C12.walkerr")},
 		NotDecided: []string{
 			"behaviour at a given byte offset; what archive/tar and compress/gzip report on truncation (library)",
 			"which error text is produced",
@@ -2225,4 +2225,89 @@ func ruleC15Retry(c *Checker) {
 		}
 	}
 	c.check(n > 0, R, p.FuncName(u.Unpack), "permission retry", p.Pos(u.Unpack.Pos()), fmt.Sprintf("%d retry site(s)", n), "Unpack no longer retries the create of a file whose earlier entry was read-only")
+}
+
+// ruleWritersClosed — the tar and gzip writers are closed before Pack reports
+// success.
+func ruleWritersClosed(id string) func(*Checker) {
+	return func(c *Checker) {
+		c.rule(id, "For every archive/tar or compress/gzip writer created in the slug package, every path from its creation to a success return of the creating function passes a Close of that writer (whose error C12.errors follows): Flush does not write a truncated last entry's padding check nor the gzip trailer, and a slug whose writer was never closed is cut short although Pack reported success.", 2)
+		p := c.P
+		for _, fn := range p.Funcs {
+			if fn.Package() == nil || fn.Package().Pkg.Path() != p.PkgPath("slug") {
+				continue
+			}
+			for _, ci := range callsTo(fn, func(o *types.Func) bool {
+				return isFunc(o, "archive/tar", "NewWriter") || isFunc(o, "compress/gzip", "NewWriter") || isFunc(o, "compress/gzip", "NewWriterLevel")
+			}) {
+				cl, ok := ci.(*ssa.Call)
+				if !ok {
+					continue
+				}
+				var w ssa.Value = cl
+				if cl.Call.Signature().Results().Len() == 2 {
+					w = extractOf(cl, 0)
+				}
+				if w == nil {
+					continue
+				}
+				isClose := func(in ssa.Instruction) bool {
+					cc, ok := in.(ssa.CallInstruction)
+					if !ok || calleeObj(cc) == nil || calleeObj(cc).Name() != "Close" || len(cc.Common().Args) == 0 {
+						return false
+					}
+					return canon(cc.Common().Args[0]) == canon(w)
+				}
+				okc, off := mustPassOK(cl, isClose, func(r *ssa.Return) bool { return !mayReturnNilErr(r) }, nil)
+				pos := p.Pos(cl.Pos())
+				if off != nil {
+					pos = p.Pos(off.Pos())
+				}
+				c.check(okc, id, p.FuncName(fn), "writer from "+shortCallee(fullName(calleeObj(cl)))+" closed before success", pos, "every path to a success return passes Close", "a success return can be reached without the writer having been closed: the archive's last entry is not checked for completeness / the gzip trailer is not written, and Pack reports success for a slug that Unpack rejects")
+			}
+		}
+	}
+}
+
+// ruleWalkErrParam — a walk callback looks at the error it is handed first.
+func ruleWalkErrParam(id string) func(*Checker) {
+	return func(c *Checker) {
+		c.rule(id, "Every filepath.WalkFunc of the module compares its error parameter with nil, the not-nil edge returning an error, before the parameter is overwritten or the FileInfo (nil when the error is set) is used: filepath.Walk reports an unreadable directory or a failed Lstat through that parameter, and a callback that does not look packs the directory as empty — or dereferences a nil FileInfo.", 2)
+		p := c.P
+		for _, fn := range p.Funcs {
+			if !p.InModule(fn) || len(fn.Params) < 3 || fn.Signature.Results().Len() != 1 || !isErrorType(fn.Signature.Results().At(0).Type()) {
+				continue
+			}
+			// (path string, info os.FileInfo, err error) possibly preceded by captured receiver
+			ps := fn.Params[len(fn.Params)-3:]
+			nmd, isN := types.Unalias(ps[1].Type()).(*types.Named)
+			if !isStringType(ps[0].Type()) || !isN || nmd.Obj().Name() != "FileInfo" || !isErrorType(ps[2].Type()) {
+				continue
+			}
+			errP := ps[2]
+			neT, _ := condEdges(fn, func(v ssa.Value) bool {
+				bo, ok := v.(*ssa.BinOp)
+				return ok && bo.Op == token.NEQ && canon(bo.X) == ssa.Value(errP) && isNilConst(bo.Y)
+			})
+			_, eqF := condEdges(fn, func(v ssa.Value) bool {
+				bo, ok := v.(*ssa.BinOp)
+				return ok && bo.Op == token.EQL && canon(bo.X) == ssa.Value(errP) && isNilConst(bo.Y)
+			})
+			set := append(neT, eqF...)
+			okT := false
+			for _, e := range set {
+				if rej, _ := returnsNonNilErrorFrom(e.To()); rej {
+					okT = true
+				}
+			}
+			// the test comes first: it sits in the entry block
+			first := false
+			for _, e := range set {
+				if e.From == fn.Blocks[0] {
+					first = true
+				}
+			}
+			c.check(okT && first, id, p.FuncName(fn), "walk error looked at first", p.Pos(fn.Pos()), "`if err != nil { return … }` on the callback's own parameter, in the entry block", "the walk callback does not look at the error filepath.Walk hands it before going on (the test is gone, or the parameter is overwritten first): an unreadable directory is packed as if empty, or the nil FileInfo is dereferenced")
+		}
+	}
 }
